@@ -15,7 +15,7 @@ export CARGO_NET_OFFLINE=true
 mkdir -p $WT/target
 echo "== suite with change" >> $LOG
 (cd $WT && CARGO_TARGET_DIR=$TGT cargo test --workspace --no-fail-fast --offline 2>&1 | grep -E "^test .* FAILED|^test result|error(\[|:)" | sort | uniq -c) >> $LOG 2>&1
-FAILED=$(grep -E "^ +[0-9]+ test .* FAILED" $LOG | grep -v test_full_dump_memory | wc -l)
+FAILED=$(grep -E "^ +[0-9]+ test [a-zA-Z_:0-9]+ \.\.\. FAILED" $LOG | grep -v test_full_dump_memory | wc -l)
 COMPILE_ERR=$(grep -cE "error(\[|:) " $LOG)
 echo "suite: other failing tests=$FAILED" >> $LOG
 DEMO=/tmp/seed_${ID}_demo
